@@ -1,6 +1,7 @@
 import Mcp.Drv.Util
 import Mcp.Model.Schema
 import Mcp.Model.SchemaTags
+import Mcp.Model.SchemaRegistry
 namespace Mcp.Drv.Schema
 open Lean Mcp.Drv Mcp.Str
 open Mcp.Schema hiding Json
@@ -162,8 +163,20 @@ def handleTags (j : Json) : Except String Json := do
     | s => throw s!"tags: unknown style {s}"
   pure (Json.mkObj [("present", Lean.Json.bool true), ("kw", jsonOfTagKw kw), ("required", Lean.Json.bool req)])
 
+/-- `registry`: a history of register / unregister with whole JSON descriptors; the listing in order. -/
+def handleRegistry (j : Json) : Except String Json := do
+  let ops ← (← getArr j "history").toList.mapM (fun o => do
+    let name ← getText o "name"
+    match (← getStr o "op") with
+    | "register" => pure (RegOp.register name (← o.getObjVal? "d"))
+    | "unregister" => pure (RegOp.unregister name)
+    | k => throw s!"registry: unknown op {k}")
+  let reg := (regRun ops).toArray.qsort (fun a b => Mcp.Str.toString a.1 < Mcp.Str.toString b.1)   -- a set: sorted by name for the comparison
+  pure (Json.mkObj [("listed", Json.arr (reg.map (·.2)))])
+
 def handle (op : String) (j : Json) : Except String Json := do
   if op == "tags" then return (← handleTags j)
+  if op == "registry" then return (← handleRegistry j)
   let env ← envOfJson j
   let T ← typeOfJson (← j.getObjVal? "t")
   match op with
